@@ -94,6 +94,15 @@ CLAIMED["C01"] = CLAIMED["C01"][:3] + ("store level (W-crash sequential with dis
 CLAIMED["C12"] = CLAIMED["C12"][:3] + ("histories lifted above max_depth by operator requeue are excluded as the property says",)
 CLAIMED["C07"] = CLAIMED["C07"][:3] + ("byte-exactness itself is input generation; the simulator contributes 'across retries, redeliveries, both transports, both backends'; restart is covered for the store (C01)",)
 
+c = CLAIMED["C18"]
+CLAIMED["C18"] = (c[0], c[1] + "; management-API config mutation enumerated over simfs; Pull API dequeues among the interleaved probes",
+    c[2] + " (d) W-mgmt, exhaustive: PUT/DELETE of an application/endpoint mapping through the real Admin handler (mutateManagedEndpointConfig -> writeFileAtomic -> reloadConfig -> rollback) with EIO/ENOSPC/EACCES at every os call, a crash before every call x every post-crash image, and the reload's read failing followed by a crash before every later call: the file is always the complete old or new content, the new content compiles, a 2xx answer means file and running configuration are new, a refused mutation whose reload failed has the previous content back and the running mapping unchanged. The atomic world also interleaves Pull API dequeues (tokens and endpoint paths of both configurations) with the reload.",
+    "two open known findings with one root cause: the switch is not atomic for ingress requests (F5) nor for Pull API requests (F5b: authorised under the old endpoint binding, served from the new one). MCP write_and_reload (admin-proxy mode needs a real dialer) is not driven; simfs treats directory operations as persisted in order (any prefix)")
+c = CLAIMED["C05"]
+CLAIMED["C05"] = (c[0], c[1] + "; W-crash histories judged for redelivery after restarts", c[2] + " Crash/restart part: the W-crash histories (SQLiteStore on the simulated disk, crashes and disk faults at the k-th disk operation) are judged with the same must/may rule after every restart, and after the last restart with faults off every unsettled message has to be offered again.", c[3])
+c = CLAIMED["C07"]
+CLAIMED["C07"] = (c[0], c[1] + "; listing after crash recovery", c[2] + " Restart part: payload bytes and header maps of every message listed after a crash recovery (W-crash) equal what was enqueued.", c[3])
+
 NA = {
  "C19": "config Parse/Format/Compile are pure functions of the text: no schedule, clock, I/O or fault for a simulation to decide (DESIGN.md §5)",
 }
